@@ -12,7 +12,8 @@ HARNESSES = {
     'k_taxyear_from_date': ('K-taxyear', [('C07.from_date', 'from_date(d) is Ok(Y) iff d in [6 Apr Y, 5 Apr Y+1] with Y in 1900..=2100, else Err; every representable date')]),
     'k_taxyear_new_and_bounds': ('K-taxyear', [('C07.new_bounds', 'TaxPeriod::new(y) Ok iff 1900<=y<=2100; start_date = 6 Apr y, end_date = 5 Apr y+1')]),
     'k_taxyear_window': ('K-taxyear', [('C07.window', 'start_date <= d <= end_date of its own year; the neighbouring days map to the neighbouring years')]),
-    'k_filter_window_eq_from_date': ('K-filter', [('C07.filter_eq', 'single-year window of build_tax_year_summary selects d iff from_date(d) == Ok(y), y in 1900..=2100')]),
+    'k_filter_window_eq_from_date': ('K-filter', [('C07.filter_eq', 'single-year window of build_tax_year_summary selects d iff from_date(d) == Ok(y), y in 1900..=2100'),
+                                                  ('C12.year_window', 'a disposal dated after 5 April y+1 never enters the single-year report of y (same harness as C07.filter_eq)')]),
     'k_explain_year_eq_from_date': ('K-explain', [('C07.explain_eq', 'MCP explain_matching year derivation equals TaxPeriod::from_date for every date')]),
     'k_chrono_ymd_roundtrip': ('K-chrono', [('A-date.ymd', 'axiom ax_ymd / from_ymd_opt contract on the real chrono')]),
     'k_chrono_april': ('K-chrono', [('A-date.apr', 'axiom ax_apr on the real chrono')]),
@@ -30,7 +31,7 @@ PROP_HARNESSES = {
     'C07': ['k_taxyear_from_date', 'k_taxyear_new_and_bounds', 'k_taxyear_window', 'k_filter_window_eq_from_date', 'k_explain_year_eq_from_date',
             'k_chrono_ymd_roundtrip', 'k_chrono_april', 'k_chrono_order'],
     'C01': ['k_window_logic', 'k_window_days_diff', 'k_chrono_order', 'k_chrono_succ', 'k_chrono_sub_is_day_difference_bounded'],
-    'C12': ['k_window_logic', 'k_window_days_diff'],
+    'C12': ['k_window_logic', 'k_window_days_diff', 'k_filter_window_eq_from_date'],
     'C19': ['k_chrono_sub_days', 'k_chrono_order'],
 }
 
